@@ -2,7 +2,7 @@
    Statements only.  Proofs: Proofs/RunnerP.v (on top of the dispatcher invariants of
    Proofs/DispatchInv.v: a node whose generator passed its last `yield this_task` is never handed
    to the runner again). *)
-From DoitV Require Import Base Dispatch Runner DispatchP DispatchInv RunnerTr RunnerP.
+From DoitV Require Import Base Dispatch Runner Parallel DispatchP DispatchInv RunnerTr RunnerP ParallelP.
 Open Scope N_scope.
 
 (* serial runner, every task table / selection / flags / set-iteration oracle / fuel:
@@ -26,6 +26,47 @@ Example C02_nonvacuous :
   execs (fst (run_serial ex02 (fun _ _ => 0) (fun _ => 0) false false 200 [0; 1; 2; 0])) = [2; 3; 0; 1].
 Proof. vm_compute. reflexivity. Qed.
 
-(* NOT YET PROVED (checked by the correspondence + oracle only): exactly one final report per task of
+(* every task gets AT MOST ONE final report (success, failure, up-to-date, ignored) in a run: no other
+   final report of the same task before or after it -- whatever the graph, flags, oracles, fuel *)
+Theorem C02_one_final_report_serial :
+  forall tasks wake_rank calc_rank continue_ always fuel selection pre e post x,
+    fst (run_serial tasks wake_rank calc_rank continue_ always fuel selection) = pre ++ e :: post ->
+    is_final_ev x e = true -> ~ finished_in pre x /\ ~ finished_in post x.
+Proof.
+  intros tasks wake_rank calc_rank continue_ always fuel selection pre e post x E Hx.
+  exact (fonce_unique _ (serial_one_final tasks wake_rank calc_rank continue_ always fuel selection) pre e post x E Hx).
+Qed.
+Print Assumptions C02_one_final_report_serial.
+
+Example C02_one_final_nonvacuous :
+  exists pre post, fst (run_serial ex02 (fun _ _ => 0) (fun _ => 0) false false 200 [0; 1; 2; 0]) = pre ++ ESuccess 2 :: post /\
+                   is_final_ev 2 (ESuccess 2) = true.
+Proof. exists [EGetStatus 2; EExecute 2; ESave 2]. eexists. split; [vm_compute; reflexivity|reflexivity]. Qed.
+
+(* the parallel runners (MRunner with processes: proc = true; MThreadRunner: proc = false), every number of
+   workers, EVERY schedule (oracle [sched] resolves each choice between "main dequeues a result" and
+   "worker w steps"): no task's actions are started twice, by any worker ... *)
+Theorem C02_exec_once_parallel :
+  forall tasks wake_rank calc_rank continue_ always proc fuel nprocs sched selection,
+    NoDup (pstarts (fst (run_parallel tasks wake_rank calc_rank continue_ always proc fuel nprocs sched selection))).
+Proof. exact parallel_exec_once. Qed.
+Print Assumptions C02_exec_once_parallel.
+
+(* ... and every task gets at most one final report from the main process/thread *)
+Theorem C02_one_final_report_parallel :
+  forall tasks wake_rank calc_rank continue_ always proc fuel nprocs sched selection pre e post x,
+    proj (fst (run_parallel tasks wake_rank calc_rank continue_ always proc fuel nprocs sched selection)) = pre ++ e :: post ->
+    is_final_ev x e = true -> ~ finished_in pre x /\ ~ finished_in post x.
+Proof.
+  intros tasks wake_rank calc_rank continue_ always proc fuel nprocs sched selection pre e post x E Hx.
+  exact (fonce_unique _ (parallel_one_final tasks wake_rank calc_rank continue_ always proc fuel nprocs sched selection) pre e post x E Hx).
+Qed.
+Print Assumptions C02_one_final_report_parallel.
+
+Example C02_parallel_nonvacuous :
+  pstarts (fst (run_parallel ex02 (fun _ _ => 0) (fun _ => 0) false false true 200 2 [1; 0; 1; 1; 0]%nat [0; 1; 2; 0])) = [2; 3; 0; 1].
+Proof. vm_compute. reflexivity. Qed.
+
+(* NOT YET PROVED (checked by the correspondence + oracle only): AT LEAST one final report per task of
    the closure when the run is not cut short, and nothing outside the closure is processed
    (needs the progress invariant of C09). *)
